@@ -119,7 +119,29 @@ impl CommitTree {
                     leaves_to_prove.as_slice(),
                     *length,
                 ) {
-                    Ok(Comparison::Contains(indices_to_prove.to_vec()))
+                    // The proof only shows that the leaves at the given
+                    // indices are shared. A proof of the head of the
+                    // other tree is used to decide whether this tree
+                    // contains the other tree, which is only true when
+                    // all the leaves up to the length of the other tree
+                    // produce the same root hash, otherwise trees that
+                    // diverged before an identical event would be
+                    // reported as contained
+                    let is_head_proof = *length > 0
+                        && indices_to_prove.as_slice() == [*length - 1];
+                    let is_prefix = !is_head_proof
+                        || (*length <= leaves.len()
+                            && MerkleTree::<Sha256>::from_leaves(
+                                &leaves[..*length],
+                            )
+                            .root()
+                            .map(|root| root == other_root.0)
+                            .unwrap_or(false));
+                    if is_prefix {
+                        Ok(Comparison::Contains(indices_to_prove.to_vec()))
+                    } else {
+                        Ok(Comparison::Unknown)
+                    }
                 } else {
                     Ok(Comparison::Unknown)
                 }
